@@ -2675,7 +2675,7 @@ func (m *Msg) hasAlt() bool {
 // References:
 //   - https://datatracker.ietf.org/doc/html/rfc2046#section-5.1.3
 func (m *Msg) hasMixed() bool {
-	return m.pgptype == 0 && (((len(m.parts) > 0 || len(m.embeds) > 0) && len(m.attachments) > 0) ||
+	return m.pgptype == 0 && (((m.bodyPartCount() > 0 || len(m.embeds) > 0) && len(m.attachments) > 0) ||
 		len(m.attachments) > 1)
 }
 
@@ -2711,7 +2711,19 @@ func (m *Msg) isSMIMEInProgress() bool {
 // References:
 //   - https://datatracker.ietf.org/doc/html/rfc2387
 func (m *Msg) hasRelated() bool {
-	return m.pgptype == 0 && ((len(m.parts) > 0 && len(m.embeds) > 0) || len(m.embeds) > 1)
+	return m.pgptype == 0 && ((m.bodyPartCount() > 0 && len(m.embeds) > 0) || len(m.embeds) > 1)
+}
+
+// bodyPartCount returns the number of body parts of the Msg, not counting deleted parts and the
+// S/MIME signature part (which lives in the parts list but is not part of the signed entity).
+func (m *Msg) bodyPartCount() int {
+	count := 0
+	for _, part := range m.parts {
+		if !part.isDeleted && !part.smime {
+			count++
+		}
+	}
+	return count
 }
 
 // hasPGPType returns true if the Msg should be treated as a PGP-encoded message.
